@@ -248,7 +248,7 @@ func (g *G) mapObjectPayload(meth *m.Method, hasBodyVerb bool) {
 		if hasBodyVerb {
 			opts = append(opts, "body", "body", "body")
 		}
-		if canPath && (f.Required || inline) && f.Attr.Default == nil {
+		if canPath && (f.Required || inline) && f.Attr.Default == nil && !(f.Attr.Type.Kind == m.User && g.avoid("C01-alias-path-param-empty-body")) {
 			opts = append(opts, "path")
 		}
 		if canQuery {
@@ -297,11 +297,25 @@ func (g *G) mapObjectPayload(meth *m.Method, hasBodyVerb bool) {
 		switch rapid.IntRange(0, 5).Draw(t, "bodymode") {
 		case 0:
 			if len(bodyFields) == 1 {
+				f := g.d.FieldByName(meth.Payload, bodyFields[0])
+				if g.d.Underlying(f.Attr) == m.Bytes && g.avoid("C01-body-attr-bytes") {
+					break
+				}
 				h.Body = &m.Body{Mode: "attr", Attr: bodyFields[0]}
 				g.feat("body-attr")
 			}
 		case 1:
-			if len(bodyFields) >= 1 {
+			ok := true
+			for _, n := range bodyFields {
+				f := g.d.FieldByName(meth.Payload, n)
+				if refsUser(f.Attr) && g.avoid("C01-body-fields-user-type") {
+					ok = false
+				}
+				if f.Attr.Type.Kind == m.Object && g.avoid("C01-body-fields-inline-required") {
+					ok = false
+				}
+			}
+			if ok {
 				h.Body = &m.Body{Mode: "fields", Fields: bodyFields}
 				g.feat("body-fields")
 			}
@@ -486,7 +500,8 @@ func (g *G) mapObjectResult(meth *m.Method) {
 			bodyFields = append(bodyFields, f.Name)
 		}
 	}
-	if g.p.ExplicitBody && !isResultType && len(bodyFields) == 1 && rapid.IntRange(0, 3).Draw(t, "rbodyattr") == 0 {
+	if g.p.ExplicitBody && !isResultType && len(bodyFields) == 1 && rapid.IntRange(0, 3).Draw(t, "rbodyattr") == 0 &&
+		!(g.d.Underlying(g.d.FieldByName(meth.Result, bodyFields[0]).Attr) == m.Bytes && g.avoid("C01-body-attr-bytes")) {
 		r.Body = &m.Body{Mode: "attr", Attr: bodyFields[0]}
 		g.feat("response-body-attr")
 	}
